@@ -81,7 +81,7 @@ def run_bounded(chk):
         keep = [(p, l) for p, l in zip(pts, labels) if l != 0]
         P = np.array([k[0] for k in keep], dtype=float)
         want = np.array([k[1] > 0 for k in keep])
-        for pname, R, t in corpus.placements()[:3 if chk.tier == "quick" else 4]:
+        for pname, R, t in corpus.placements()[:3 if chk.bounded_tier == "quick" else 4]:
             n_cases += 1
             Rf = np.array([[float(x) for x in row] for row in R])
             V = np.asarray(verts) @ Rf.T + np.asarray(t, float)
@@ -113,7 +113,7 @@ def run_bounded(chk):
                         break
     # spheropolyhedron: distance to the core <= r
     rng = np.random.default_rng(chk.seed)
-    cores = list(corpus.named_convex().items())[:6 if chk.tier == "quick" else 20]
+    cores = list(corpus.named_convex().items())[:6 if chk.bounded_tier == "quick" else 20]
     # sharp cores: narrow spikes (with a small facet cut near the apex) expose shortcuts that only look at one face
     spike = [[0.0, 0, 0], [1.0, 0, 0], [0.4, 0.9, 0], [0.45, 0.3, 3.0]]
     cut = spike[:3] + [[0.45 + 0.02, 0.3, 2.9], [0.45 - 0.02, 0.3 + 0.03, 2.9], [0.45, 0.3 - 0.03, 2.85], [0.45, 0.3, 2.97]]
